@@ -1,6 +1,8 @@
 """Fail-closed translator for the lookup methods of /repo's amaranth_soc/memory.py (DESIGN §4.2, fifth stage):
 
+    _RangeMap.items                  -> gen_rm_items
     ResourceInfo.__init__            -> gen_resource_info
+    ResourceInfo.resource/path/start/end/width (properties) -> gen_info_*
     MemoryMap.resources              -> gen_resources
     MemoryMap.windows                -> gen_windows
     MemoryMap.window_patterns        -> gen_window_patterns
@@ -27,6 +29,8 @@ Reading of Python values (coq/Lib/LookupRep.v holds the corresponding definition
   an object kept in the range  `assign` (AR id | AW id): its identity.  Passing it where a resource identity is
   map (resource or window)     observed (ResourceInfo(resource, ..), `return assignment`) applies asg_id
   self._ranges.items()         m_ranges self: the entries in list order; an item unpacks to (range_of_entry x, e_asg x)
+                               (this reading is itself tied: _RangeMap.items is translated, with self._keys the list of
+                               entries and self._values[key] the object the entry carries, as in translate3.py)
   self._ranges.get(a)          option_map e_asg (rm_get (m_ranges self) a) - _RangeMap itself is translated by
                                translate3.py, here its methods are the model's functions
   self._resources              m_ress self.  `id(x) in self._resources` is `res_lookup (m_ress self) x`
@@ -41,7 +45,8 @@ Reading of Python values (coq/Lib/LookupRep.v holds the corresponding definition
   a MemoryMap (w.addr_width,   deref_window (m_wins self) w, i.e. the child found under that identity in
   w.all_resources(), ...)      self._windows, OtherError if there is none (objects are only resolved through self)
   ResourceInfo                 the model's `info` record; the constructor returns the record built from the
-                               final values of self._resource/_path/_start/_end/_width, or the exception
+                               final values of self._resource/_path/_start/_end/_width, or the exception; info.start
+                               etc. read the field of the same name (the five properties are translated too)
   generator function           res (list T): Ok l when it runs to exhaustion yielding l, Err e when ANYTHING
                                raises.  Laziness is not modelled: a `for` over an inner generator evaluates the
                                inner one first, so when both the inner generator and the loop body would raise,
@@ -50,7 +55,9 @@ Reading of Python values (coq/Lib/LookupRep.v holds the corresponding definition
                                no break/continue/return inside, no variable carried from one iteration to the next
   `for` elsewhere              a local fix over the list; break / continue / return inside are supported;
                                variables assigned in the body must be new (nothing is carried across iterations)
-  try: B except E: H           B must end in return/raise; `match B with Err E => H; rest | r => r end`
+  try: B except E: H           either B ends in return/raise: `match B with Err E => H; rest | r => r end`, or B contains
+                               no return at all: `match B with Err E => H; rest | Err e => Err e | Ok vars => rest end`
+                               where vars are the variables B defines; one handler, no else/finally, not in a generator
   exceptions                   res values; `assert c` is `if c then .. else Err AssertionError`;
                                arguments of a raised exception (messages) are not evaluated
   nested def f(item)           only as the predicate of filter(f, items); its body may read its own locals and self
@@ -82,7 +89,8 @@ def cq(t):
             return "(" + " * ".join(cq(x) for x in t[1]) + ")"
     return {"Z": "Z", "rid": "Z", "bool": "bool", "str": "(list Z)", "name": "name", "oname": "(option name)",
             "path": "(list name)", "obj": "assign", "range": "prange", "mmap": "mmap", "info": "info",
-            "entry": "entry", "resrec": "resent", "winrec": "(winent * mmap)"}[t]
+            "entry": "entry", "resrec": "resent", "winrec": "(winent * mmap)", "rmkey": "entry",
+            "rmself": "(list entry)"}[t]
 
 
 # positional reading of the record-like tuples
@@ -101,17 +109,35 @@ ATTRS = {
     ("info", "resource"): ("(i_res {})", "rid"), ("info", "path"): ("(i_path {})", "path"),
     ("info", "start"): ("(i_start {})", "Z"), ("info", "end"): ("(i_end {})", "Z"),
     ("info", "width"): ("(i_width {})", "Z"),
+    # the private fields behind the properties of ResourceInfo (gen_info_* below ties each property to its field)
+    ("info", "_resource"): ("(i_res {})", "rid"), ("info", "_path"): ("(i_path {})", "path"),
+    ("info", "_start"): ("(i_start {})", "Z"), ("info", "_end"): ("(i_end {})", "Z"),
+    ("info", "_width"): ("(i_width {})", "Z"),
+    # inside _RangeMap: the keys in list order; a key carries its value (as in translate3.py)
+    ("rmself", "_keys"): ("{}", ("list", "rmkey")), ("rmself", "_values"): ("{}", "rmvalues"),
 }
 
 DICTS = {"resdict": ("res_lookup", "resrec"), "windict": ("win_lookup", "winrec")}
 
 # the functions translated here: how a call of one of them from another is written
 FUNCS = {
+    "items": {"path": ["_RangeMap", "items"], "coq": "gen_rm_items", "kind": "gen", "self": "rmself", "params": [],
+              "ret": ("list", ("tuple", ("range", "obj")))},
     "ResourceInfo": {"path": ["ResourceInfo", "__init__"], "coq": "gen_resource_info", "kind": "ctor",
                      "params": [("resource", "rid"), ("path", "path"), ("start", "Z"), ("end", "Z"), ("width", "Z")],
                      "ret": "info",
                      "fields": [("_resource", "i_res", "rid"), ("_path", "i_path", "path"), ("_start", "i_start", "Z"),
                                 ("_end", "i_end", "Z"), ("_width", "i_width", "Z")]},
+    "prop:resource": {"path": ["ResourceInfo", "resource"], "coq": "gen_info_resource", "kind": "prop", "self": "info",
+                      "params": [], "ret": "rid"},
+    "prop:path": {"path": ["ResourceInfo", "path"], "coq": "gen_info_path", "kind": "prop", "self": "info",
+                      "params": [], "ret": "path"},
+    "prop:start": {"path": ["ResourceInfo", "start"], "coq": "gen_info_start", "kind": "prop", "self": "info",
+                      "params": [], "ret": "Z"},
+    "prop:end": {"path": ["ResourceInfo", "end"], "coq": "gen_info_end", "kind": "prop", "self": "info",
+                      "params": [], "ret": "Z"},
+    "prop:width": {"path": ["ResourceInfo", "width"], "coq": "gen_info_width", "kind": "prop", "self": "info",
+                      "params": [], "ret": "Z"},
     "resources": {"path": ["MemoryMap", "resources"], "coq": "gen_resources", "kind": "gen", "params": [],
                   "ret": ("list", ("tuple", ("obj", "name", ("tuple", ("Z", "Z")))))},
     "windows": {"path": ["MemoryMap", "windows"], "coq": "gen_windows", "kind": "gen", "params": [],
@@ -129,7 +155,7 @@ FUNCS = {
     "decode_address": {"path": ["MemoryMap", "decode_address"], "coq": "gen_decode_address_step", "kind": "fun",
                        "params": [("address", "Z")], "ret": ("option", "rid"), "rec": True},
 }
-ORDER = ["ResourceInfo", "resources", "windows", "window_patterns", "_translate", "all_resources", "find_resource",
+ORDER = ["items", "ResourceInfo", "prop:resource", "prop:path", "prop:start", "prop:end", "prop:width", "resources", "windows", "window_patterns", "_translate", "all_resources", "find_resource",
          "decode_address"]
 
 
@@ -201,12 +227,14 @@ class T:
                 return V(f"(snd {v.known})", "mmap")
             key = "@deref:" + v.s
             if key not in env:
-                if "self" not in env:
+                if "self" not in env or env["self"].t != "mmap":
                     raise Untranslatable("an object used as a MemoryMap outside a method of a map")
                 nm = self.fresh("map_of_" + v.s)
                 pre.append((nm, f"deref_window (m_wins {env['self'].s}) {v.s}"))
                 env[key] = V(nm, "mmap")
             return env[key]
+        if v.t == "rmkey" and want == "range":
+            return V(f"(range_of_entry {v.s})", "range")
         if v.t == "name" and want == "oname":
             return V(f"(Some {v.s})", "oname")
         if isinstance(want, tuple) and want[0] == "option" and v.t != want:
@@ -375,6 +403,11 @@ class T:
 
     def subscript(self, n, env, pre):
         base = self.expr(n.value, env, pre)
+        if not isinstance(base, Closure) and base.t == "rmvalues":
+            k = self.expr(n.slice, env, pre)
+            if not isinstance(k, Closure) and k.t == "rmkey":
+                return V(f"(e_asg {k.s})", "obj")          # self._values[key]: the key carries its value
+            raise Untranslatable("self._values indexed by something else than a key")
         if not isinstance(base, Closure) and base.t in DICTS:
             x = self.id_of(n.slice, env)
             if x is None:
@@ -478,7 +511,7 @@ class T:
                 raise Untranslatable(f"dict method {meth}")
             if recv.t == "obj":
                 recv = self.coerce(recv, "mmap", env, pre)
-            if recv.t == "mmap" and meth in FUNCS and FUNCS[meth]["kind"] in ("gen", "fun"):
+            if meth in FUNCS and FUNCS[meth]["kind"] in ("gen", "fun") and recv.t == FUNCS[meth].get("self", "mmap"):
                 return self.known_call(meth, n.args, env, pre, recv)
             raise Untranslatable(f"method .{meth} of a value of type {recv.t}")
         raise Untranslatable("call " + ast.unparse(n)[:80])
@@ -569,6 +602,8 @@ class T:
         v = self.expr(n, env, pre)
         if not isinstance(v, Closure) and v.t == "bool":
             return v.s
+        if not isinstance(v, Closure) and (v.t in ("path", "str") or (isinstance(v.t, tuple) and v.t[0] == "list")):
+            return f"(negb (Z.eqb (Z.of_nat (length {v.s})) (0)))"          # truth value of a sequence
         raise Untranslatable("condition " + ast.dump(n)[:100])
 
     # ------------------------------------------------------------------ statements
@@ -807,17 +842,40 @@ class T:
         h = st.handlers[0]
         if h.name is not None or not isinstance(h.type, ast.Name) or h.type.id not in ("KeyError", "ValueError", "TypeError"):
             raise Untranslatable("except clause")
-        if not st.body or not isinstance(st.body[-1], (ast.Return, ast.Raise)) \
-                or contains(st.body, (ast.Break, ast.Continue)):
-            raise Untranslatable("the body of try must end in return or raise and not leave the loop otherwise")
+        if not st.body or contains(st.body, (ast.Break, ast.Continue)):
+            raise Untranslatable("break / continue inside the body of try")
         for nm in stores(st.body):
             if nm in env:
                 raise Untranslatable(f"try assigns {nm}, which exists before it")
         ctx_t = dict(ctx); ctx_t["break"] = ctx_t["continue"] = None
-        body = self.block(st.body, dict(env), lambda e: (_ for _ in ()).throw(Untranslatable("try body falls through")), ctx_t)
         hb = self.block(h.body, dict(env), nxt, ctx)
         other = self.fresh("outcome")
-        return f"(match {body} with\n  | Err {h.type.id} =>\n  {hb}\n  | {other} => {other}\n  end)"
+        if isinstance(st.body[-1], (ast.Return, ast.Raise)):
+            # the body never falls through: its outcome is the outcome of the function unless it is the caught exception
+            body = self.block(st.body, dict(env), lambda e: (_ for _ in ()).throw(Untranslatable("try body falls through")), ctx_t)
+            return f"(match {body} with\n  | Err {h.type.id} =>\n  {hb}\n  | {other} => {other}\n  end)"
+        # the body only falls through: its outcome is the tuple of the variables it defines
+        if contains(st.body, (ast.Return,)):
+            raise Untranslatable("a try body that both returns and falls through")
+        names = stores(st.body)
+        seen = {}
+
+        def fall(e):
+            for nm in names:
+                if nm not in e or isinstance(e[nm], Closure):
+                    raise Untranslatable(f"{nm} is not defined on every path through the try body")
+                if seen.setdefault(nm, e[nm].t) != e[nm].t:
+                    raise Untranslatable(f"{nm} has two types")
+            return "(Ok (" + ", ".join(e[nm].s for nm in names) + "))" if names else "(Ok tt)"
+        body = self.block(st.body, dict(env), fall, ctx_t)
+        env2 = dict(env)
+        pats = []
+        for nm in names:
+            x = self.fresh(nm)
+            env2[nm] = V(x, seen[nm]); pats.append(x)
+        pat = ("(" + ", ".join(pats) + ")") if names else "_"
+        return (f"(match {body} with\n  | Err {h.type.id} =>\n  {hb}\n  | Err {other} => Err {other}\n"
+                f"  | Ok {pat} =>\n  {nxt(env2)}\n  end)")
 
 
 def translate_function(tree, key):
@@ -833,6 +891,10 @@ def translate_function(tree, key):
     if spec["kind"] == "static":
         if decos != ["staticmethod"]:
             raise Untranslatable(f"{key}: expected a staticmethod")
+    elif spec["kind"] == "prop":
+        if decos != ["property"] or names != ["self"]:
+            raise Untranslatable(f"{key}: expected a property")
+        names = []
     else:
         if decos or not names or names[0] != "self":
             raise Untranslatable(f"{key}: expected a plain method")
@@ -846,9 +908,9 @@ def translate_function(tree, key):
     t = T(key)
     env = {}
     params = []
-    if spec["kind"] in ("gen", "fun"):
-        env["self"] = V("self", "mmap")
-        params.append("(self : mmap)")
+    if spec["kind"] in ("gen", "fun", "prop"):
+        env["self"] = V("self", spec.get("self", "mmap"))
+        params.append(f"(self : {cq(spec.get('self', 'mmap'))})")
     for p, ty in spec["params"]:
         nm = t.ident(p)
         env[p] = V(nm, ty)
